@@ -290,7 +290,17 @@ fn big_frame(o: &Opts, rng: &mut Rng, k: usize) -> (Vec<[f32; 3]>, usize, usize,
     }
     px.extend(head.iter().rev().copied());
     px.truncate(n);
+    // the very last (and first) pixels are where dropped remainders live: mid-range values, never fixed points of a curve
+    for k in 0..16 {
+        let t = 0.07 + 0.055 * k as f32;
+        px[n - 1 - k] = [t, 0.97 - t, 0.31 + 0.5 * t];
+        px[k] = [0.97 - t, 0.31 + 0.5 * t, t];
+    }
     let mut idx: std::collections::BTreeSet<usize> = crate::util::probe_indices(n, w, rng).into_iter().collect();
+    for k in 0..16 {
+        idx.insert(k);
+        idx.insert(n - 1 - k);
+    }
     // every 3rd interesting pixel at the head, every 3rd at the tail
     for i in (0..head.len()).step_by(5) {
         idx.insert(i);
